@@ -22,7 +22,9 @@ RULE = ("case = configuration (cache_size in {0,1,2,64}, template engine on/off,
         "of {write, delete, mkdir, swap file<->dir/init, top edit, get(system, preceding data)} with file contents drawn "
         "from a small per-case pool; after every get the long-lived source is compared with a freshly constructed "
         "cache-less source and with the Lean model, the returned data is mutated by the harness; non-trivial if the "
-        "history has at least two successful gets separated by a modification; distinct by SHA-1 of the whole case")
+        "history has at least two successful gets separated by a modification; plus direct get/set sequences on the cache "
+        "object (LRUCache sizes 1,2,3,64 and the NullCache) against the model and the recency-list reference; distinct "
+        "by SHA-1 of the whole case")
 BUDGET_S = {"quick": 55, "thorough": 900}
 
 
@@ -40,6 +42,8 @@ def run_impl(case, env):
 
 
 def model_requests(case, obs):
+    if case.get("kind") == "lru":
+        return [{"op": "yaml.lru", "size": max(0, case["size"]), "ops": case["ops"]}]
     if "steps" not in obs:
         return []
     return [Y.c12_request(case, obs)]
@@ -52,7 +56,34 @@ def _same(a, b):
     return a[1] == b[1]
 
 
+def judge_lru(case, obs, resps):
+    if "lru" not in obs or not resps or "ok" not in resps[0]:
+        return Judgement(case, True, False, {"infrastructure": str(obs)[:500]}, kind="infra", nontrivial=False)
+    r, o = resps[0]["ok"], obs["lru"]
+    size = max(0, case["size"])
+    # spec on the implementation: never more than `size` entries; what a get returns is the last value set
+    last, spec_ok, clause = {}, True, None
+    gi = 0
+    for op in case["ops"]:
+        if op[0] == "set":
+            last[op[1]] = op[2]
+        else:
+            g = o["gets"][gi]
+            gi += 1
+            if g is not None and last.get(op[1]) != g:
+                spec_ok, clause = False, "lru-returns-wrong-value"
+    if o["len"] > size or len(o["keys"]) > size:
+        spec_ok, clause = False, "lru-exceeds-size"
+    agree = (o["gets"] == r["gets"] and o["keys"] == sorted(r["keys"]) and o["len"] == r["len"]
+             and r["keys"] == r["ref_keys"])
+    detail = None if (agree and spec_ok) else {"impl": o, "model": r}
+    return Judgement(case, spec_ok, agree, detail, kind=f"lru/size{min(size, 3)}", nontrivial=len(case["ops"]) > 3,
+                     failed_clause=clause)
+
+
 def judge(case, obs, resps):
+    if case.get("kind") == "lru":
+        return judge_lru(case, obs, resps)
     style = case.get("_meta", {}).get("style", "-")
     cs = case["cfg"]["cache_size"]
     if "steps" not in obs or not resps or "ok" not in resps[0]:
@@ -112,14 +143,22 @@ def gen(rng, tier, mult=1):
     sizes = [0, 1, 2, 64]
     for i in range(n):
         yield Y.gen_c12_case(rng, cache_size=sizes[i % 4], template=("jinja" if (i // 4) % 3 else None))
+    for i in range(n // 4):
+        yield Y.gen_lru_case(rng, size=[0, 1, 2, 3, 64][i % 5])
 
 
 def shrink(case):
+    if case.get("kind") == "lru":
+        return Y.shrink_lru(case)
     return Y.shrink_c12(case)
 
 
 def neighbours(case, rng):
     import copy
+    if case.get("kind") == "lru":
+        for c in Y.shrink_lru(case):
+            yield c
+        return
     base = Y.strip_meta(case)
     for c in Y.shrink_c12(base):
         yield c
@@ -132,5 +171,7 @@ def neighbours(case, rng):
 
 
 def signature(case, j):
+    if case.get("kind") == "lru":
+        return {"clause": j.failed_clause, "size": case["size"], "kind": "lru"}
     return {"clause": j.failed_clause, "cache_size": case["cfg"]["cache_size"],
             "gets": sum(1 for s in case["steps"] if s[0] == "get")}
